@@ -276,6 +276,22 @@ Proof.
   rewrite (H rest Hr b f ltac:(lia) Hb). rewrite app_nil_r. f_equal. unfold nlen. cbn. lia.
 Qed.
 
+(* the list also ends where a separator is present but no element follows it: the separator is given back *)
+Lemma oksep_nil_elem s g d (F : list byte -> Prop) :
+  (forall rest, F rest -> Rej s d rest \/
+     exists ws sv r2 (Fs : list byte -> Prop), rest = ws ++ r2 /\ Ok s d ws sv Fs /\ Fs r2 /\ ws <> [] /\ Rej g d r2) ->
+  OkSep s g d [] [] F.
+Proof.
+  intros H b f rest acc used k Hf Hk Hb Hr. cbn [app] in *. destruct k as [|k]; [lia|]. cbn [sep_loop].
+  destruct (H rest Hr) as [R | (ws & sv & r2 & Fs & -> & Hs & HFs & Hne & Rg)].
+  - rewrite (R b f ltac:(lia) Hb). rewrite app_nil_r. f_equal. unfold nlen. cbn. lia.
+  - rewrite (Hs b f r2 ltac:(lia) Hb HFs).
+    assert (Hz : (nlen ws =? 0) = false).
+    { apply N.eqb_neq. intro E. apply nlen_zero in E. contradiction. }
+    rewrite Hz. rewrite (Rg b f ltac:(lia)); [| rewrite app_length in Hb; lia].
+    rewrite app_nil_r. f_equal. unfold nlen. cbn. lia.
+Qed.
+
 Lemma oksep_cons s g d ws sv w1 w2 v vs (Fs F1 F2 : list byte -> Prop) :
   Ok s d ws sv Fs -> ws <> [] -> Ok g d w1 v F1 -> OkSep s g d w2 vs F2 ->
   (forall rest, F2 rest -> F1 (w2 ++ rest)) -> (forall rest, F2 rest -> Fs (w1 ++ w2 ++ rest)) ->
